@@ -29,42 +29,33 @@ mod verif_c17 {
         kani::cover!(true, "reach_end");
     }
 
-    // Ghost-recording stand-in for the contracted callee: remembers the address it was asked
-    // about and returns a marker pair, so the caller obligation is "asks about its own key and
-    // stores the answer in `reg`" (the answer itself is pinned by the contract above).
-    static mut GHOST_COUNTRY_ARG: u32 = 0xFFFF_FFFF;
-    static mut GHOST_COUNTRY_CALLS: u32 = 0;
-    fn ghost_icao_to_country(icao: u32) -> (&'static str, &'static str) {
-        unsafe {
-            GHOST_COUNTRY_ARG = icao;
-            GHOST_COUNTRY_CALLS += 1;
-        }
-        ("<marker>", "<M>")
+    // Caller obligation: the constructors ask the contracted function about their own key and
+    // store its answer.  Compared by (pointer,len) identity with a second evaluation - the
+    // answer itself is pinned by the contract above, so no string contents are read here.
+    fn same_str(a: &str, b: &str) -> bool {
+        a.as_ptr() == b.as_ptr() && a.len() == b.len()
     }
 
-    //@ob id=C17.row.reg_from_key.from_message props=C17 tier=quick kind=harness fns=plane.rs:Plane::from_message
+    //@ob id=C17.row.reg_from_key.from_message flags=noassert props=C17 tier=quick kind=harness fns=plane.rs:Plane::from_message
     //@region row created by Plane::from_message for any address and any DF11 frame: reg = icao_to_country(key).1, icao = key
     #[kani::proof]
-    #[kani::unwind(34)]
+    #[kani::unwind(90)]
     #[kani::stub(chrono::Utc::now, crate::verif_spec::h::stub_now)]
-    #[kani::stub(icao_to_country, ghost_icao_to_country)]
     fn c17_row_reg_from_message() {
         let m = crate::verif_spec::h::any_frame14();
         let icao: u32 = kani::any();
         kani::assume(icao <= 0xFF_FFFF);
         let p = crate::decoder::Plane::from_message(&m, 11, icao, false);
-        assert!(unsafe { GHOST_COUNTRY_ARG } == icao && unsafe { GHOST_COUNTRY_CALLS } == 1, "country looked up for the row key, once");
-        assert!(crate::verif_spec::h::str_eq(p.reg, "<M>"), "row.reg == icao_to_country(key).1");
+        assert!(same_str(p.reg, icao_to_country(icao).1), "row.reg == icao_to_country(key).1");
         assert!(p.icao == icao, "row.icao == key");
         kani::cover!(true, "reach_end");
     }
 
-    //@ob id=C17.row.reg_from_key.from_downlink props=C17 tier=quick kind=harness fns=plane.rs:Plane::from_downlink
+    //@ob id=C17.row.reg_from_key.from_downlink flags=noassert props=C17 tier=quick kind=harness fns=plane.rs:Plane::from_downlink
     //@region row created by Plane::from_downlink (the constructor the table uses) for any address and any DF11 frame
     #[kani::proof]
-    #[kani::unwind(34)]
+    #[kani::unwind(90)]
     #[kani::stub(chrono::Utc::now, crate::verif_spec::h::stub_now)]
-    #[kani::stub(icao_to_country, ghost_icao_to_country)]
     fn c17_row_reg_from_downlink() {
         use crate::decoder::Downlink;
         let mut m = crate::verif_spec::h::any_frame14();
@@ -74,8 +65,7 @@ mod verif_c17 {
         let dl = crate::decoder::DF::from_message(&m);
         if let Ok(dl) = dl {
             let p = crate::decoder::Plane::from_downlink(&dl, icao);
-            assert!(unsafe { GHOST_COUNTRY_ARG } == icao && unsafe { GHOST_COUNTRY_CALLS } == 1, "country looked up for the row key, once");
-            assert!(crate::verif_spec::h::str_eq(p.reg, "<M>"), "row.reg == icao_to_country(key).1");
+            assert!(same_str(p.reg, icao_to_country(icao).1), "row.reg == icao_to_country(key).1");
             assert!(p.icao == icao, "row.icao == key");
             kani::cover!(true, "reach_end");
         }
